@@ -4,6 +4,7 @@ import TeosVerif.Props.C02
 #print axioms Teos.C02.loop_submits_only_decrypted_penalties
 #print axioms Teos.C02.only_matching_locators_are_disputes
 #print axioms Teos.C02.no_send_for_purged
+#print axioms Teos.C02.listener_order_is_modelled
 #print axioms Teos.C02.reorg_resubmits_only_tracker_txs
 #print axioms Teos.C02.rebroadcast_only_tracker_penalty
 #print axioms Teos.C02.responded_implies_node_has
